@@ -22,7 +22,7 @@ from . import shrink
 from .core import ROOT, IsolationError, env_seed, func_adl_src, isolated, mix
 
 WORKERS = int(os.environ.get("VERIF_WORKERS", "16"))
-CHUNK_TIMEOUT = 300
+CHUNK_TIMEOUT = 900
 
 _ENGINE = None
 
@@ -214,7 +214,7 @@ def main(prop, engine, argv, quick_runs=4000, thorough_budget=900, selftest_seed
     budget = a.budget if a.budget is not None else float(
         os.environ.get("VERIF_BUDGET_S", thorough_budget if tier == "thorough" else 0) or 0)
     runs = a.runs if a.runs is not None else (quick_runs if tier == "quick" else 10 ** 9)
-    wd = _watchdog((budget if tier == "thorough" else 240) + 600)
+    wd = _watchdog((budget if tier == "thorough" else 600) + 1200)
     try:
         code = _main(prop, engine, tier, seed0, runs, budget, selftest_seeds, t0, a, technique)
     except HarnessError as e:
@@ -474,6 +474,9 @@ def _main(prop, engine, tier, seed0, runs, budget, selftest_seeds, t0, a, techni
         os.makedirs(os.path.join(ROOT, "evidence"), exist_ok=True)
         with open(os.path.join(ROOT, "evidence", f"{prop}.json"), "w") as f:
             json.dump(ev, f, indent=1, default=repr)
+        if tier == "thorough":  # kept next to the every-change evidence, which quick runs rewrite
+            with open(os.path.join(ROOT, "evidence", f"{prop}.thorough.json"), "w") as f:
+                json.dump(ev, f, indent=1, default=repr)
     print(f"{prop} {tier}: runs={total} (fault-free {agg_ff.runs}, fault-injecting {agg_fi.runs}) "
           f"distinct_nontrivial={len(fps)} violations={ev['violations']} "
           f"known={sum(1 for f in found if f['known'])} wall={wall:.1f}s "
